@@ -48,6 +48,22 @@ def exhaustive_small(codec, rng, limit):
     return out
 
 
+def state_digests_agree(c, a, digs, line):
+    """internal state of the C decoder after every submission call (equation counters, partial sums, remaining entries, ready-counters,
+    per-repair equation counts) against the model's state, through a digest both sides compute over the same canonical text"""
+    cd = [d for d in a.dig if d is not None]
+    if not cd or not digs:
+        return True
+    c.cov["state_digests_compared"] = c.cov.get("state_digests_compared", 0) + min(len(cd), len(digs))
+    for n_, (x, y) in enumerate(zip(cd, digs)):
+        if x != y:
+            c.proof_failed.append({"correspondence": "dec/internal-state", "request": line[:600], "after_call": n_, "c_digest": x, "model_digest": y,
+                                   "note": "the decoder's internal state (per equation: unknown count, remaining degree, partial sum, entries; ready-counters; "
+                                           "per-repair equation counts) differs from the model's although the visible masks agree"})
+            return False
+    return True
+
+
 def run_sessions(c, codecs, pids, n_random, n_exh, extra_reqs=(), big=False):
     """pids: property ids whose oracle failures this check reports (others are the business of their own check)"""
     reqs = list(extra_reqs)
@@ -119,10 +135,14 @@ def run_sessions(c, codecs, pids, n_random, n_exh, extra_reqs=(), big=False):
             for j, i in enumerate(it_idx):
                 a = ldpc.Ans(ans[i])
                 want = " ".join("S%d:%s:%s" % (s[1], s[2], s[3]) for s in a.steps)
-                got = ml[j].rsplit(" V", 1)[0].strip() if j < len(ml) else None
-                vals = ml[j].rsplit(" V", 1)[1] if j < len(ml) and " V" in ml[j] else (ml[j][1:] if j < len(ml) and ml[j].startswith("V") else "")
-                if (got or "") != want and not (want == "" and (got or "").startswith("V")):
-                    c.proof_failed.append({"correspondence": "dec/it", "request": lines[i][:400], "c": want[:600], "model": (got or "")[:600]})
+                mt = ml[j].split() if j < len(ml) else []
+                got = " ".join(x for x in mt if x[0] not in "VD")
+                vals = next((x[1:] for x in mt if x.startswith("V")), "")
+                digs = next((x[1:].split(".") for x in mt if x.startswith("D")), [])
+                if got != want:
+                    c.proof_failed.append({"correspondence": "dec/it", "request": lines[i][:400], "c": want[:600], "model": got[:600]})
+                    break
+                if not state_digests_agree(c, a, digs, lines[i]):
                     break
                 # decoded values of the model = encoded source symbols (C01 on the model side)
                 if vals:
@@ -151,10 +171,13 @@ def run_sessions(c, codecs, pids, n_random, n_exh, extra_reqs=(), big=False):
                 want.append("F%d%d:%s:%s" % (1 if a.F[0] == 0 else 0, a.F[1], a.F[2], a.F[3]))
                 got = ml[j].split() if j < len(ml) else []
                 gv = [x for x in got if x.startswith("V")]
-                got = [x for x in got if not x.startswith("V")]
+                digs = next((x[1:].split(".") for x in got if x.startswith("D")), [])
+                got = [x for x in got if x[0] not in "VD"]
                 if got != want:
                     c.proof_failed.append({"correspondence": "dec/ml-finish", "request": lines[i][:400], "c": " ".join(want)[:800], "model": " ".join(got)[:800],
                                            "model_request": ml_req[j][:3000]})
+                    break
+                if not state_digests_agree(c, a, digs, lines[i]):
                     break
                 if gv:
                     for s, v in enumerate(gv[0][1:].split(".")):
